@@ -302,6 +302,7 @@ inductive DOp where
   | back (l : Nat)
   | next (e : Nat)
   | prev (e : Nat)
+  | setValue (e : Nat) (v : Int)               -- `e.Value = v` through the node handle
 
 /-- What a call returns: nothing, a node pointer (`none` = nil), or a value / length. -/
 inductive DRes where
@@ -334,6 +335,7 @@ def DSt.apply (s : DSt) : DOp → Option (DSt × DRes)
   | .back l => some (s, .ptr (s.back l))
   | .next e => some (s, .ptr (s.nodeNext e))
   | .prev e => some (s, .ptr (s.nodePrev e))
+  | .setValue e v => some ({ s with val := s.val.set e v }, .unit)
 
 /-- Run a list of calls on the memory, collecting the results (`none` = some call panicked). -/
 def DSt.run : DSt → List DOp → Option (DSt × List DRes)
@@ -394,6 +396,7 @@ def parseDOp (s : DSt) (ts : List String) : Option DOp :=
   | ["back", l] => do let l ← parseList s l; pure (.back l)
   | ["next", e] => do let e ← parseHandle s e; pure (.next e)
   | ["prev", e] => do let e ← parseHandle s e; pure (.prev e)
+  | ["setv", e, v] => do let e ← parseHandle s e; let v ← v.toInt?; pure (.setValue e v)
   | _ => none
 
 /-- One protocol line: `none` = unparsable, `some none` = panic.  The oracle runs exactly the
